@@ -251,7 +251,7 @@ def check(c):
 
 @st.composite
 def dispatch_case(draw):
-    return {"kind": draw(st.sampled_from(["raw", "sports", "custom"])), "exc": draw(st.sampled_from(["flumine", "plain"])),
+    return {"kind": draw(st.sampled_from(["raw", "sports", "custom", "sim-sports", "sim-sports"])), "exc": draw(st.sampled_from(["flumine", "plain", "declines"])),
             "order": draw(st.sampled_from(["AB", "BA", "ABA2"])), "n": draw(st.integers(1, 4))}
 
 
@@ -278,6 +278,8 @@ def check_dispatch(c):
 
         def check_sports_data(self, market, sports_data):
             calls.append((self.name, "check_sports", None))
+            if self.bad and c["exc"] == "declines":
+                return False  # a strategy that is not interested in sports data (the default behaviour)
             self._boom()
             return True
 
@@ -302,6 +304,22 @@ def check_dispatch(c):
                     for g in good + ["B"]:
                         if calls.count((g, "raw", d["id"])) != 1:
                             raise Violation("raw-data-not-delivered", (c["exc"],), "strategy %s got datum %s %d times" % (g, d["id"], calls.count((g, "raw", d["id"]))), c)
+            elif c["kind"] == "sim-sports":
+                # the simulation's replay of recorded sports data (SimulatedSportsDataMiddleware), driven with prepared
+                # updates: every strategy that accepts sports data gets every due update, whatever the others do
+                from flumine.markets.middleware import SimulatedSportsDataMiddleware
+
+                mw = SimulatedSportsDataMiddleware("cricketSubscription", "/nonexistent")
+                ups = [[types.SimpleNamespace(market_id="1.100", publish_time_epoch=1000 + i, streaming_unique_id=7)] for i in range(c["n"])]
+                mw._next = ups[0]
+                mw._gen = iter(ups[1:])
+                market = types.SimpleNamespace(market_id="1.100", flumine=fw,
+                                               market_book=types.SimpleNamespace(publish_time_epoch=10**9, streaming_unique_id=7))
+                mw(market)
+                for g in good:
+                    if calls.count((g, "sports", None)) != c["n"]:
+                        raise Violation("sports-data-not-delivered", (c["exc"], "simulated-middleware", c["order"]),
+                                        "strategy %s processed %d of %d replayed sports updates" % (g, calls.count((g, "sports", None)), c["n"]), c)
             elif c["kind"] == "sports":
                 fw._add_market("1.100", None)
                 sd = types.SimpleNamespace(market_id="1.100", streaming_unique_id=7)
